@@ -44,6 +44,11 @@ MCInit == \/ \E s \in Strs : InitWith([op |-> "pct", in |-> s])
                 InitWith([op |-> "spec_reuse", proto |-> p, used |-> u, base |-> b])
           \/ \E p \in {"connect", "grpc", "grpcweb"}, u \in {"badoption", "badurl"} :
                 InitWith([op |-> "client_init_fail", proto |-> p, used |-> u])
+          \* C15: a handler returns its context's error; the context ended on the server side alone
+          \/ \E p \in {"connect", "grpc", "grpcweb"}, k \in {"unary", "client", "server", "bidi"},
+                c \in {"deadline", "servercancel", "early"}, n \in {0, 2} :
+                /\ (n > 0 => k \in {"server", "bidi"} /\ c # "early")
+                /\ InitWith([op |-> "handler_ctx", proto |-> p, used |-> k, text |-> c, n |-> n])
           \* C11: error metadata when the error payload exceeds the client's read limit
           \/ \E p \in {"connect", "grpc", "grpcweb"} : InitWith([op |-> "errmeta_limit", proto |-> p])
           \* C10: a stream created under a deadline and first used later
